@@ -5,9 +5,18 @@ interpolation laws).  Tie: correspondence of Model/Access.lean (ℚ) with the re
 ModelIsotherm, incl. malformed arguments.  Failing-input search: the property itself — every accessor result
 against the stored numbers re-expressed with the independent SI tables of c01.py (= permanent conversion of a
 copy, which C02 ties to the same tables), exact branch/limit selection, label-free split rule, interpolation laws.
+
+Isotherm STATES (second generator): real adsorbates (CoolProp) at several temperatures, the temperature stored in K or in
+degrees Celsius — constructed so, reached through convert_temperature, or at the end of a history of permanent conversions —
+point and model isotherms.  On every state each accessor (pressure, loading, pressure_at, loading_at, other_data, has_branch,
+the ordered read of the characterisation routines; ModelIsotherm.pressure / loading / has_branch) is compared with
+(1) the SI oracle at the temperature IN KELVIN, (2) the permanent conversion of a clone read natively (same branch, same
+limits, same query), (3) the Lean model of the state (Model/Access.lean `accessPressureAt`, `column`, `modelPressureColumn`,
+...; theorems in Props/C03/Whole.lean); requests are biased to those that need p0(T) or the densities at T.
 """
 import itertools
 import math
+import os
 from fractions import Fraction as Fr
 
 import c01
@@ -15,7 +24,7 @@ import c02
 from pgv.core import close, err_class, frac, import_pygaps, qstr, tok
 from pgv.models import make, sample_params
 
-ERRMAP = c02.ERRMAP
+ERRMAP = {**c02.ERRMAP, "value": "other:ValueError"}
 FRAC = ("fraction", "percent")
 
 
@@ -32,6 +41,78 @@ def expected_loading(P, stored, req_l, req_m, v):
 
 def expected_pressure(P, stored, req, v):
     return frac(v) * P.scale_p(stored[0], stored[1]) / P.scale_p(req[0], req[1])
+
+
+# real adsorbates with every property the conversions need (nominal temperature in K, inside the two-phase region)
+REAL = [("N2", 77.355), ("Ar", 87.3), ("CO2", 273.15), ("CO2", 296.0), ("CH4", 111.0), ("C4H10", 273.0), ("H2O", 298.15),
+        ("Kr", 120.0), ("O2", 90.0), ("C3H8", 230.0), ("NH3", 250.0)]
+CELSIUS = ("°C", "C", "celsius", "degC")
+
+
+def clone_iso(pg, iso):
+    """a copy of a point isotherm (never deepcopy: the CoolProp state is not picklable)"""
+    return pg.PointIsotherm(isotherm_data=iso.data_raw.copy(), pressure_key=iso.pressure_key, loading_key=iso.loading_key, **iso.to_dict())
+
+
+def kelvin_of(iso):
+    """temperature of the state in kelvin, from the STORED number and unit (independent of `iso.temperature`)"""
+    t = float(iso._temperature)
+    return t if iso.temperature_unit == "K" else t + 273.15
+
+
+def needs_T(stored_basis, target_basis, target_mat_basis, stored_mat_basis):
+    """does the loading conversion use a density of the adsorbate at the isotherm temperature?"""
+    def phys(b, mb):
+        return ("volume_liquid" if mb == "volume" else mb) if b in FRAC else b
+    a, b = phys(stored_basis, stored_mat_basis), phys(target_basis, target_mat_basis)
+    return a != b and ("volume" in a or "volume" in b)
+
+
+def pick_request(rng, lab, PST, LST, MST):
+    """requested representation, biased to the conversions that need p0(T) / densities at T"""
+    if rng.random() < 0.7:
+        rq_p = rng.choice([x for x in PST if (x[0] == "absolute") != (lab[0] == "absolute")])
+    else:
+        rq_p = rng.choice(PST)
+    rq_m = (lab[4], lab[5]) if rng.random() < 0.55 else rng.choice(MST)
+    if rng.random() < 0.7:
+        cand = [x for x in LST if needs_T(lab[2], x[0], rq_m[0], lab[4])]
+        rq_l = rng.choice(cand or LST)
+    else:
+        rq_l = rng.choice(LST)
+    return rq_p, rq_l, rq_m
+
+
+def inv_tolerance(m, nn, np, base=1e-7):
+    """Relative tolerance for `model.pressure` evaluated at a loading that went through a unit round trip (a few roundings of
+    the argument, amplified by the condition number of the inverse near saturation).  None: too ill-conditioned to compare."""
+    try:
+        h = 1e-9
+        p0 = float(m.pressure(np.float64(nn)))
+        p1, p2 = float(m.pressure(np.float64(nn * (1 + h)))), float(m.pressure(np.float64(nn * (1 - h))))
+        kappa = abs(p1 - p2) / (2 * h * abs(p0))
+    except Exception:  # noqa
+        return None
+    if not math.isfinite(kappa):
+        return None
+    tol = max(base, 64 * 2.3e-16 * kappa)
+    return tol if tol < 1e-4 else None
+
+
+def mid_limits(vals):
+    """limits strictly between the two smallest and the two largest of the distinct values (no value on a bound)"""
+    u = sorted(set(float(v) for v in vals))
+    if len(u) < 4:
+        return None
+    return (u[0] + u[1]) / 2, (u[-1] + u[-2]) / 2
+
+
+def mtok(marks):
+    return "[" + ";".join(str(int(m)) for m in marks) + "]"
+
+
+def lim_tok(lim):
+    return ["-", "-"] if lim is None else [tok(lim[0]), tok(lim[1])]
 
 
 def run(ck):
@@ -253,19 +334,578 @@ def run(ck):
             if rq_l[1] is not None and name in ("Langmuir", "Henry", "Toth"):
                 nn = bare
                 lf = float(expected_loading(P, lab, rq_l, rq_m, nn))
+                # 1e-7 unless the inverse is ill-conditioned at this loading (measured); None: saturated (the bare inverse is NaN or
+                # amplifies one rounding of the supplied loading beyond 1e-4) — nothing can be compared there
+                tol = inv_tolerance(miso.model, nn, np)
                 try:
                     got = float(miso.pressure_at(lf, loading_basis=rq_l[0], loading_unit=rq_l[1], material_basis=rq_m[0], material_unit=rq_m[1],
                                                  pressure_mode=rq_p[0], pressure_unit=rq_p[1]))
-                    # the bare model's pressure at that loading (the round trip through loading() is ill-conditioned near saturation)
-                    exp = expected_pressure(P, lab, rq_p, float(miso.model.pressure(np.float64(nn))))
-                    ok = close(got, exp, rel=1e-7)
+                    if tol is None:
+                        exp, ok = None, True
+                    else:
+                        # the bare model's pressure at that loading (the round trip through loading() is ill-conditioned near saturation)
+                        exp = expected_pressure(P, lab, rq_p, float(miso.model.pressure(np.float64(nn))))
+                        ok = close(got, exp, rel=tol)
                 except Exception as e:  # noqa
-                    got, ok, exp = repr(e), False, None
+                    got, ok, exp = repr(e), tol is None, None
                 ck.count(("model.pressure_at", name, tuple(lab[:6]), rq_p, rq_l, rq_m), bucket="accessor:model.pressure_at")
                 if not ok:
                     ck.fail_case({**base_sig, "accessor": "ModelIsotherm.pressure_at", "clause": "bare model after unit conversion",
                                   "stored_fraction": stored_frac, "requested_fraction": req_frac, "material_changes": mat_changes}, {"model": name, "got": str(got), "expected": float(exp) if exp is not None else None})
                 ask(" ".join(["iL", "T", qstr(lf), tok(rq_l[0]), tok(rq_l[1]), tok(rq_m[0]), tok(rq_m[1])]), ("none", None), None)
+
+    # ================================================================== isotherm STATES: temperature unit, histories, real adsorbates
+    from pygaps.utilities.math_utilities import find_limit_indices
+    from pygaps.utilities.pygaps_utilities import get_iso_loading_and_pressure_ordered
+    wcache = {}
+
+    def world_at(name, tK):
+        if (name, tK) not in wcache:
+            wcache[(name, tK)] = c02.World(pg, f"{name}@{tK!r}K", name, "pgv_mat", tK)
+        return wcache[(name, tK)]
+
+    def complete(w):
+        return w.props.psat is not None and all(v is not None for v in w.props.q.values())
+
+    def state_lines(w, iso):
+        """the Lean side of a state: constants at the kelvin temperature (keyed by the EXACT kelvin value), labels, raw temperature"""
+        lab = c02.labels_of(iso)
+        traw = frac(float(iso._temperature))
+        tk = traw if lab[6] == "K" else traw + Fr(5463, 20)
+        for ln in (w.ctx_line(), " ".join(["lab"] + [tok(x) for x in lab]), "tmp " + qstr(traw), "thm0",
+                   " ".join(["thm", qstr(tk), tok(w.props.psat)] + w.props.env_tokens())):
+            lines.append(ln)
+            plan.append(None)
+
+    def temp_spec():
+        name, t0 = rng.choice(REAL) if rng.random() < 0.88 else ("pgv_stub", 77.0)
+        tk = t0 + rng.uniform(-1.5, 1.5)
+        tu = "°C" if rng.random() < 0.65 else "K"
+        return name, tk, tu
+
+    def temp_value(tk, unit):
+        return round(tk - 273.15, 2) if unit != "K" else round(tk, 3)
+
+    def vals_eq(got, exp, rel):
+        return len(got) == len(exp) and all(close(g, e, rel=rel) for g, e in zip(got, exp))
+
+    def build_point_state():
+        name, tk, tu = temp_spec()
+        route = rng.choice(["constructed", "convert_temperature", "history", "history"])
+        st = (rng.choice(PST), rng.choice(LST), rng.choice(MST))
+        n = rng.randint(5, 9)
+        nd = 0 if rng.random() < 0.15 else rng.randint(2, 3)
+        up = sorted(rng.uniform(0.02, 0.95) for _ in range(n))
+        ps = up + [up[-1] * f for f in (0.8, 0.5, 0.3)[:nd]]
+        la = list(np.cumsum([rng.uniform(0.1, 1.0) for _ in range(n)]))
+        ls = la + [la[-1] * f for f in (0.97, 0.8, 0.6)[:nd]]
+        other = "K" if tu != "K" else "°C"
+        tu0 = tu if route == "constructed" else (other if route == "convert_temperature" else rng.choice(["K", "°C"]))
+        lab0 = [st[0][0], st[0][1], st[1][0], st[1][1], st[2][0], st[2][1], tu0]
+        iso = c02.make_iso(pg, type("W", (), {"mat": pg.Material.find("pgv_mat"), "ads": pg.Adsorbate.find(name)})(), lab0, ps, ls,
+                           temp_value(tk, tu0), branch=[0] * n + [1] * nd)
+        hist = []
+        if route == "convert_temperature":
+            hist.append(("T", (rng.choice(CELSIUS) if tu != "K" else "K",)))
+        elif route == "history":
+            for _ in range(rng.randint(1, 3)):
+                k = rng.random()
+                if k < 0.25:
+                    hist.append(("P", rng.choice(PST)))
+                elif k < 0.45:
+                    hist.append(("M", rng.choice(MST)))
+                elif k < 0.7:
+                    hist.append(("L", rng.choice(LST)))
+                elif k < 0.85:
+                    x, y, z = rng.choice(PST), rng.choice(LST), rng.choice(MST)
+                    hist.append(("A", (x[0], x[1], y[0], y[1], z[0], z[1])))
+                else:
+                    hist.append(("T", (rng.choice(CELSIUS + ("K",)),)))
+            hist.append(("T", (rng.choice(CELSIUS) if tu != "K" else "K",)))
+        for kind, a in hist:
+            if rng.random() < 0.5:          # interpolators cached before the conversion (they must be rebuilt afterwards)
+                try:
+                    iso.loading_at(float(iso.pressure(branch="ads")[1]))
+                    iso.pressure_at(float(iso.loading(branch="ads")[1]))
+                except Exception:
+                    pass
+            c02.apply_op(iso, kind, a)
+        w = world_at(name, 77.0 if name == "pgv_stub" else kelvin_of(iso))
+        return iso, w, route, [[k, [str(x) for x in a]] for k, a in hist]
+
+    def probe_point(iso, w, route, hist, ci):
+        P = w.props
+        lab = c02.labels_of(iso)
+        d = iso.data_raw
+        ps = [float(x) for x in d[iso.pressure_key]]
+        ls = [float(x) for x in d[iso.loading_key]]
+        es = [float(x) for x in d["enthalpy"]]
+        marks = [int(x) for x in d["branch"]]
+        nrow = len(ps)
+        idx = {None: list(range(nrow)), "ads": [i for i in range(nrow) if marks[i] == 0], "des": [i for i in range(nrow) if marks[i] == 1]}
+        rq_p, rq_l, rq_m = pick_request(rng, lab, PST, LST, MST)
+        stored_frac, req_frac = lab[2] in FRAC, rq_l[0] in FRAC
+        mat_changes = (rq_m[0], rq_m[1]) != (lab[4], lab[5])
+        base_sig = {"stored": [str(x) for x in lab[:6]], "requested": [str(x) for x in (rq_p + rq_l + rq_m)], "temperature_unit": str(lab[6]),
+                    "stored_temperature": float(iso._temperature), "state": route, "history": hist, "adsorbate": w.name}
+        fsig = {"stored_fraction": stored_frac, "requested_fraction": req_frac, "material_changes": mat_changes}
+        pkw = dict(pressure_mode=rq_p[0], pressure_unit=rq_p[1])
+        lkw = dict(loading_basis=rq_l[0], loading_unit=rq_l[1], material_basis=rq_m[0], material_unit=rq_m[1])
+        state_lines(w, iso)
+        ck.count(("state", route, str(lab[6]), tuple(lab[:2]), rq_p, tuple(lab[2:6]), rq_l, rq_m), bucket="state:" + route + ":" + str(lab[6]),
+                 sample={**base_sig, "kelvin": kelvin_of(iso)} if ci % 37 == 0 else None)
+
+        # ---- (1) SI oracle at the kelvin temperature, whole-branch accessors
+        exp_p = [expected_pressure(P, lab, rq_p, v) for v in ps]
+        exp_l = [expected_loading(P, lab, rq_l, rq_m, v) for v in ls]
+        for branch in (None, "ads", "des"):
+            try:
+                got = [float(x) for x in iso.pressure(branch=branch, **pkw)]
+                ok = vals_eq(got, [exp_p[i] for i in idx[branch]], 1e-10)
+            except Exception as e:  # noqa
+                got, ok = repr(e), False
+            ck.count(("state.pressure()", str(lab[6]), tuple(lab[:2]), rq_p, branch), bucket="accessor:pressure")
+            if not ok:
+                ck.fail_case({**base_sig, "accessor": "PointIsotherm.pressure", "clause": "value = permanent conversion"},
+                             {"branch": branch, "got": str(got)[:300], "expected": [float(exp_p[i]) for i in idx[branch]][:4]})
+            try:
+                got = [float(x) for x in iso.loading(branch=branch, **lkw)]
+                ok = vals_eq(got, [exp_l[i] for i in idx[branch]], 1e-10)
+            except Exception as e:  # noqa
+                got, ok = repr(e), False
+            ck.count(("state.loading()", str(lab[6]), tuple(lab[2:6]), rq_l, rq_m, branch), bucket="accessor:loading")
+            if not ok:
+                ck.fail_case({**base_sig, **fsig, "accessor": "PointIsotherm.loading", "clause": "value = permanent conversion"},
+                             {"branch": branch, "got": str(got)[:300], "expected": [float(exp_l[i]) for i in idx[branch]][:4]})
+
+        # ---- (2) the property literally: permanent conversion of a copy, read natively (same branch, same limits, same query)
+        cl = clone_iso(pg, iso)
+        try:
+            cl.convert(**pkw, **lkw)
+        except Exception as e:  # noqa   (refused conversions are C02's business)
+            ck.notes.append("state probe: permanent conversion of the copy refused: " + repr(e)[:160])
+            cl = None
+        if cl is not None:
+            clause = "accessor = permanent conversion of a copy, read natively"
+            for branch in (None, "ads", "des"):
+                for what in ("pressure", "loading"):
+                    kw = pkw if what == "pressure" else lkw
+                    native = [float(x) for x in getattr(cl, what)(branch=branch)]
+                    for lim in (None, mid_limits(native)):
+                        try:
+                            got = [float(x) for x in getattr(iso, what)(branch=branch, limits=lim, **kw)]
+                            exp = [float(x) for x in getattr(cl, what)(branch=branch, limits=lim)]
+                            ok = vals_eq(got, exp, 1e-10)
+                        except Exception as e:  # noqa
+                            got, exp, ok = repr(e), native, False
+                        ck.count(("copy", what, branch, lim is None, tuple(lab[:6]), rq_p, rq_l, rq_m), bucket="copy:" + what)
+                        if not ok:
+                            ck.fail_case({**base_sig, **(fsig if what == "loading" else {}), "accessor": "PointIsotherm." + what, "clause": clause, "limits": lim is not None},
+                                         {"branch": branch, "limits": lim, "got": str(got)[:300], "converted_copy": exp[:5]})
+            # interpolated values: query given in the requested representation
+            for branch in ("ads", "des"):
+                cp = [float(x) for x in cl.pressure(branch=branch)]
+                cq = [float(x) for x in cl.loading(branch=branch)]
+                if len(cp) < 2:
+                    continue
+                q = (cp[0] + cp[1]) / 2 if branch == "des" else (cp[1] + cp[2]) / 2
+                try:
+                    got = float(iso.loading_at(q, branch=branch, **pkw, **lkw))
+                    exp = float(cl.loading_at(q, branch=branch))
+                    ok = close(got, exp, rel=1e-9)
+                except Exception as e:  # noqa
+                    got, exp, ok = repr(e), None, False
+                ck.count(("copy", "loading_at", branch, tuple(lab[:6]), rq_p, rq_l, rq_m), bucket="copy:loading_at")
+                if not ok:
+                    ck.fail_case({**base_sig, **fsig, "accessor": "PointIsotherm.loading_at", "clause": clause}, {"branch": branch, "query": q, "got": str(got), "converted_copy": exp})
+                if rq_l[1] is None:
+                    continue
+                lq = (cq[0] + cq[1]) / 2 if branch == "des" else (cq[1] + cq[2]) / 2
+                try:
+                    got = float(iso.pressure_at(lq, branch=branch, **pkw, **lkw))
+                    exp = float(cl.pressure_at(lq, branch=branch))
+                    ok = close(got, exp, rel=1e-9)
+                except Exception as e:  # noqa
+                    got, exp, ok = repr(e), None, False
+                ck.count(("copy", "pressure_at", branch, tuple(lab[:6]), rq_p, rq_l, rq_m), bucket="copy:pressure_at")
+                if not ok:
+                    ck.fail_case({**base_sig, **fsig, "accessor": "PointIsotherm.pressure_at", "clause": clause}, {"branch": branch, "query": lq, "got": str(got), "converted_copy": exp})
+
+        # ---- (3) supplementary columns and branch presence: exactly the stored rows of the branch inside the limits, in order
+        e_lim = mid_limits(es)
+        for branch in (None, "ads", "des", "all"):
+            rows = idx[None if branch == "all" else branch]
+            for lim in (None, e_lim, (es[1], es[-2]), (None, es[2]), (0, 0), (es[0], None)):
+                if lim is None or not (lim[0] or lim[1]):
+                    exp = [es[i] for i in rows]
+                else:
+                    exp = [es[i] for i in rows if (lim[0] is None or es[i] >= lim[0]) and (lim[1] is None or es[i] <= lim[1])]
+                try:
+                    got = [float(x) for x in iso.other_data("enthalpy", branch=branch, limits=lim)]
+                except Exception as e:  # noqa
+                    got = repr(e)
+                ck.count(("other_data", branch, lim is None), bucket="accessor:other_data")
+                if got != exp:
+                    ck.fail_case({"accessor": "PointIsotherm.other_data", "clause": "exactly the stored points of the branch inside the limits, in order", "state": route},
+                                 {"branch": branch, "limits": lim, "got": str(got)[:300], "expected": exp})
+                ask(" ".join(["colO", "T", tok([frac(x) for x in es]), mtok(marks), tok(branch)] + lim_tok(lim)),
+                    ("vals", lambda branch=branch, lim=lim: iso.other_data("enthalpy", branch=branch, limits=lim)), {"accessor": "other_data", "branch": branch, "limits": lim})
+            try:
+                got = list(iso.other_data("tag", branch=branch))
+            except Exception as e:  # noqa
+                got = repr(e)
+            if got != [f"r{i}" for i in rows]:
+                ck.fail_case({"accessor": "PointIsotherm.other_data", "clause": "text column: the stored rows of the branch, in order", "state": route}, {"branch": branch, "got": str(got)[:200]})
+            try:
+                hb = bool(iso.has_branch(branch))
+            except Exception as e:  # noqa
+                hb = repr(e)
+            ck.count(("has_branch", branch, bool(rows)), bucket="accessor:has_branch")
+            if hb != bool(rows):
+                ck.fail_case({"accessor": "PointIsotherm.has_branch", "clause": "true exactly when the branch has stored rows", "state": route}, {"branch": branch, "marks": marks, "got": hb})
+        for b in (None, "ads", "des", "all", "all-nol", "bogus", ""):
+            ask(" ".join(["hb", mtok(marks), tok(b)]), ("bool", lambda b=b: iso.has_branch(b)), {"accessor": "has_branch", "branch": b})
+            ask(" ".join(["br", mtok(marks), tok(b)]), ("list", lambda b=b: [int(i) for i in iso.data(branch=b).index]), {"accessor": "data", "branch": b})
+        try:
+            iso.other_data("no_such_column")
+            ck.fail_case({"accessor": "PointIsotherm.other_data", "clause": "unknown column is refused"}, {})
+        except ParameterError:
+            pass
+        ask(" ".join(["colO", "F", tok([frac(x) for x in es]), mtok(marks), "~", "-", "-"]), ("vals", lambda: iso.other_data("no_such_column")), {"accessor": "other_data", "key": "unknown"})
+
+        # ---- (4) what the characterisation routines read: both columns in the requested units, desorption reversed
+        ord_m = (lab[4], lab[5]) if stored_frac else rq_m        # (stored fraction + material change is finding S5a)
+        olkw = dict(loading_basis=rq_l[0], loading_unit=rq_l[1], material_basis=ord_m[0], material_unit=ord_m[1])
+        exp_lo = [expected_loading(P, lab, rq_l, ord_m, v) for v in ls]
+        for branch in ("ads", "des"):
+            rows = idx[branch] if branch == "ads" else idx[branch][::-1]
+            try:
+                gp, gl = get_iso_loading_and_pressure_ordered(iso, branch, olkw, pkw)
+                ok = vals_eq([float(x) for x in gp], [exp_p[i] for i in rows], 1e-10) and vals_eq([float(x) for x in gl], [exp_lo[i] for i in rows], 1e-10)
+                got = [[float(x) for x in gp][:4], [float(x) for x in gl][:4]]
+            except Exception as e:  # noqa
+                got, ok = repr(e), False
+            ck.count(("ordered", branch, tuple(lab[:6]), rq_p, rq_l, ord_m), bucket="accessor:ordered_read")
+            if not ok:
+                ck.fail_case({**base_sig, "accessor": "get_iso_loading_and_pressure_ordered", "clause": "both columns in the requested units, rows paired, desorption reversed"},
+                             {"branch": branch, "got": str(got)[:300], "expected": [[float(exp_p[i]) for i in rows][:4], [float(exp_lo[i]) for i in rows][:4]]})
+            ask(" ".join(["ord", branch, tok([frac(ps[i]) for i in idx[branch]])]),
+                ("vals", lambda branch=branch: get_iso_loading_and_pressure_ordered(iso, branch, {}, {})[0]), {"accessor": "ordered_read", "branch": branch})
+
+        # ---- (5) the Lean model of the state: constants at kelvin(temperature unit, stored temperature); whole columns with limits
+        ask(" ".join(["aPT", qstr(ps[1]), tok(rq_p[0]), tok(rq_p[1])]), ("val", lambda: iso.pressure(**pkw)[1]), {**base_sig, "accessor": "pressure (state)"})
+        ask(" ".join(["aLTT", qstr(ls[1]), tok(rq_l[0]), tok(rq_l[1]), tok(rq_m[0]), tok(rq_m[1])]), ("val", lambda: iso.loading(**lkw)[1]), {**base_sig, "accessor": "loading (state)"})
+        ask("kel", ("val", lambda: iso.temperature), {**base_sig, "accessor": "temperature"})
+        for branch in (None, "ads", "des"):
+            lim = mid_limits([exp_p[i] for i in idx[branch]])
+            ask(" ".join(["colP", tok([frac(x) for x in ps]), mtok(marks), tok(branch), tok(rq_p[0]), tok(rq_p[1])] + lim_tok(lim)),
+                ("vals", lambda branch=branch, lim=lim: iso.pressure(branch=branch, limits=lim, **pkw)), {**base_sig, "accessor": "pressure column", "branch": branch, "limits": lim})
+            lim = mid_limits([exp_l[i] for i in idx[branch]])
+            ask(" ".join(["colL", tok([frac(x) for x in ls]), mtok(marks), tok(branch)] + [tok(x) for x in rq_l + rq_m] + lim_tok(lim)),
+                ("vals", lambda branch=branch, lim=lim: iso.loading(branch=branch, limits=lim, **lkw)), {**base_sig, "accessor": "loading column", "branch": branch, "limits": lim})
+        # native columns with limits ON stored values (inclusive bounds)
+        a = idx["ads"]
+        ask(" ".join(["colP", tok([frac(x) for x in ps]), mtok(marks), "ads", "~", "~", tok(ps[a[1]]), tok(ps[a[-2]])]),
+            ("vals", lambda: iso.pressure(branch="ads", limits=(ps[a[1]], ps[a[-2]]))), {"accessor": "pressure column", "limits": "on stored values"})
+        # linear interpolation against interpLin (inside, at a knot, outside)
+        pa, la_ = [ps[i] for i in a], [ls[i] for i in a]
+        for q in ((pa[1] + pa[2]) / 2, pa[2], pa[0] * 0.5, pa[-1] * 1.5):
+            ask(" ".join(["il", tok([frac(x) for x in pa]), tok([frac(x) for x in la_]), qstr(q)]), ("val", lambda q=q: iso.loading_at(q)), {"accessor": "loading_at", "query": q})
+
+        # the whole of loading_at / pressure_at (input conversion -> interpolation -> output conversion) on both branches
+        for branch in ("ads", "des"):
+            rows = idx[branch] if branch == "ads" else idx[branch][::-1]          # knots with increasing pressure
+            if len(rows) < 2:
+                continue
+            kp, kl = [ps[i] for i in rows], [ls[i] for i in rows]
+            for qn_ in ((kp[0] + kp[1]) / 2, kp[-1] * 1.5):
+                qq = float(expected_pressure(P, lab, rq_p, qn_))
+                ask(" ".join(["lat", tok([frac(x) for x in kp]), tok([frac(x) for x in kl]), qstr(qq)] + [tok(x) for x in rq_p + rq_l + rq_m]),
+                    ("val", lambda branch=branch, qq=qq: iso.loading_at(qq, branch=branch, **pkw, **lkw)), {**base_sig, "accessor": "loading_at (whole)", "branch": branch, "query": qq})
+            if not (stored_frac and mat_changes):
+                lq_ = float(expected_loading(P, lab, rq_l, rq_m, (kl[0] + kl[1]) / 2))
+                ask(" ".join(["pat", tok([frac(x) for x in kl]), tok([frac(x) for x in kp]), qstr(lq_)] + [tok(x) for x in rq_l + rq_m + rq_p]),
+                    ("val", lambda branch=branch, lq_=lq_: iso.pressure_at(lq_, branch=branch, **lkw, **pkw)), {**base_sig, "accessor": "pressure_at (whole)", "branch": branch, "query": lq_})
+
+        # ---- (6) conversions of SUPPLIED quantities and of interpolated results, observed through a straight-line isotherm with the same labels
+        k = rng.uniform(0.5, 3.0)
+        lp = [0.0, pa[0], pa[-1]]          # through the origin: small and large supplied quantities stay well-conditioned
+        lin = c02.make_iso(pg, type("W", (), {"mat": iso.material, "ads": iso.adsorbate})(), lab, lp, [k * x for x in lp], float(iso._temperature), branch=[0, 0, 0])
+        qn = (pa[1] + pa[2]) / 2
+        qf = float(expected_pressure(P, lab, rq_p, qn))
+        lfq = float(expected_loading(P, lab, rq_l, rq_m, k * qn))
+        argsets = [(rq_p[0], rq_p[1])]
+        if rng.random() < 0.5:
+            argsets.append((rng.choice([None, "", "bogus", rq_p[0], "absolute"]), rng.choice([None, "", "bogus", rq_p[1], "kPa"])))
+        for pm_, pu_ in argsets:
+            ask(" ".join(["iP", qstr(qf), tok(pm_), tok(pu_)]), ("val", lambda pm_=pm_, pu_=pu_: lin.loading_at(qf, pressure_mode=pm_, pressure_unit=pu_, interp_fill="extrapolate") / k),
+                {**base_sig, "accessor": "loading_at-input", "args": [str(pm_), str(pu_)]})
+            ask(" ".join(["oPP", qstr(qn), tok(pm_), tok(pu_)]), ("val", lambda pm_=pm_, pu_=pu_: lin.pressure_at(k * qn, pressure_mode=pm_, pressure_unit=pu_, interp_fill="extrapolate")),
+                {**base_sig, "accessor": "pressure_at-output", "args": [str(pm_), str(pu_)]})
+        largs = [rq_l + rq_m]
+        if rng.random() < 0.5:
+            largs.append((rng.choice([None, "", "bogus", rq_l[0]]), rng.choice([None, "", "bogus", rq_l[1], "g"]), rng.choice([None, "", "bogus", rq_m[0]]), rng.choice([None, "", "bogus", rq_m[1], "kg"])))
+        for la4 in largs:
+            ask(" ".join(["iL", "F", qstr(lfq)] + [tok(x) for x in la4]),
+                ("val", lambda la4=la4: lin.pressure_at(lfq, loading_basis=la4[0], loading_unit=la4[1], material_basis=la4[2], material_unit=la4[3], interp_fill="extrapolate") * k),
+                {**base_sig, "accessor": "pressure_at-input", "args": [str(x) for x in la4]})
+
+        # ---- (7) call sequences on ONE object: every (branch, kind, fill rule) has its own interpolant; no fill rule = refusal outside the range
+        for branch in ("ads", "des"):
+            rows = idx[branch]
+            if len(rows) < 2:
+                continue
+            bp, bl = [ps[i] for i in rows], [ls[i] for i in rows]
+            for fn, xs, ys in (("loading_at", bp, bl), ("pressure_at", bl, bp)):
+                f = getattr(iso, fn)
+                lo_x, hi_x = min(xs), max(xs)
+                i0, i1 = (0, 1)
+                xm = (xs[i0] + xs[i1]) / 2
+                ylin = ys[i0] + (ys[i1] - ys[i0]) * (xm - xs[i0]) / (xs[i1] - xs[i0])
+                seq = []
+                try:
+                    seq.append(("fill", float(f(hi_x * 1.5, branch=branch, interp_fill=(1.25, 7.5)))))
+                    seq.append(("fill-low", float(f(lo_x * 0.5, branch=branch, interp_fill=(1.25, 7.5)))))
+                    okf = seq[0][1] == 7.5 and seq[1][1] == 1.25
+                except Exception as e:  # noqa
+                    seq.append(("fill", repr(e)[:120]))
+                    okf = False
+                ck.count(("sequence", fn, branch), bucket="call-sequence")
+                if not okf:
+                    ck.fail_case({"accessor": "PointIsotherm." + fn, "clause": "fill rule used outside the range", "state": route}, {"branch": branch, "calls": seq})
+                for bad in (hi_x * 1.5, lo_x * 0.5):
+                    try:
+                        v = f(bad, branch=branch)
+                        ck.fail_case({"accessor": "PointIsotherm." + fn, "clause": "outside the measured range is refused (after a call with a fill rule)", "state": route},
+                                     {"branch": branch, "query": bad, "value": float(v), "range": [lo_x, hi_x]})
+                    except ValueError:
+                        pass
+                    except Exception as e:  # noqa
+                        ck.fail_case({"accessor": "PointIsotherm." + fn, "clause": "outside the measured range is refused (after a call with a fill rule)", "state": route},
+                                     {"branch": branch, "query": bad, "raised": repr(e)[:160]})
+                # another kind FIRST (under its own fill rule, so that it is certainly built), then the default under the same rule
+                kind = rng.choice(["nearest", "zero"])
+                try:
+                    f(xm, branch=branch, interpolation_type=kind, interp_fill=(2.5, 3.5))
+                    y2 = float(f(xm, branch=branch, interp_fill=(2.5, 3.5)))                # the default is the straight line
+                    yk = float(f(xs[i1], branch=branch, interpolation_type=kind))            # any kind: the data at a measured point
+                    y3 = float(f(xm, branch=branch))
+                    oks = close(y2, ylin, rel=1e-12) and close(yk, ys[i1], rel=1e-12) and close(y3, ylin, rel=1e-12)
+                except Exception as e:  # noqa
+                    yk, y2, y3, oks = repr(e)[:120], None, None, False
+                if not oks:
+                    ck.fail_case({"accessor": "PointIsotherm." + fn, "clause": "coincides at knots for every kind / linear by default after another kind", "state": route},
+                                 {"branch": branch, "kind": kind, "at_knot": [xs[i1], yk, ys[i1]], "mid": [xm, y2, y3, ylin]})
+
+    def build_model_state():
+        name, tk, tu = temp_spec()
+        route = rng.choice(["constructed", "convert_temperature"])
+        st = (rng.choice(PST), rng.choice(LST), rng.choice(MST))
+        other = "K" if tu != "K" else "°C"
+        tu0 = tu if route == "constructed" else other
+        lab0 = [st[0][0], st[0][1], st[1][0], st[1][1], st[2][0], st[2][1], tu0]
+        # TODO(candidate defect, reported): DR / DA stay out of this generator — ModelIsotherm.__init__ hands the RAW stored temperature
+        # (`self._temperature`, not kelvin) to `model.__init_parameters__`, so a DR/DA model isotherm whose temperature is stored in
+        # degrees Celsius evaluates with minus_rt = -R*t[degC] (loading_at(0.1): 4.01 instead of 4.83 mmol/g for n_m=5, e=8000, N2 at -195.8 degC)
+        mname = rng.choice(["Langmuir", "Henry", "Henry", "Toth", "DSLangmuir", "Virial"])
+        par = sample_params(mname, rng)
+        m = make(pg, mname, par)
+        sc = 100.0 if lab0[0] == "relative%" else 1.0
+        if mname == "Virial":
+            l0, l1 = rng.uniform(0.02, 0.2), rng.uniform(0.8, 2.0)
+            m.loading_range = (l0, l1)
+            m.pressure_range = (float(m.pressure(np.float64(l0))), float(m.pressure(np.float64(l1))))
+        else:
+            p0, p1 = rng.uniform(0.01, 0.1) * sc, rng.uniform(0.5, 0.95) * sc
+            m.pressure_range = (p0, p1)
+            m.loading_range = (float(m.loading(np.float64(p0))), float(m.loading(np.float64(p1))))
+        own = "des" if rng.random() < 0.25 else "ads"
+        miso = pg.ModelIsotherm(model=m, branch=own, material="pgv_mat", adsorbate=name, temperature=temp_value(tk, tu0),
+                                pressure_mode=lab0[0], pressure_unit=lab0[1], loading_basis=lab0[2], loading_unit=lab0[3],
+                                material_basis=lab0[4], material_unit=lab0[5], temperature_unit=tu0)
+        if route == "convert_temperature":
+            miso.convert_temperature(rng.choice(CELSIUS) if tu != "K" else "K")
+        w = world_at(name, 77.0 if name == "pgv_stub" else kelvin_of(miso))
+        return miso, w, route, mname, par, own
+
+    def probe_model(miso, w, route, mname, par, own, ci):
+        P = w.props
+        lab = c02.labels_of(miso)
+        m = miso.model
+        rq_p, rq_l, rq_m = pick_request(rng, lab, PST, LST, MST)
+        stored_frac, req_frac = lab[2] in FRAC, rq_l[0] in FRAC
+        if stored_frac:
+            rq_m = (lab[4], lab[5])                  # (stored fraction + material change is finding S5d/S5e)
+        mat_changes = (rq_m[0], rq_m[1]) != (lab[4], lab[5])
+        base_sig = {"stored": [str(x) for x in lab[:6]], "requested": [str(x) for x in (rq_p + rq_l + rq_m)], "temperature_unit": str(lab[6]),
+                    "stored_temperature": float(miso._temperature), "state": route, "adsorbate": w.name, "model": mname, "model_branch": own}
+        fsig = {"stored_fraction": stored_frac, "requested_fraction": req_frac, "material_changes": mat_changes}
+        pkw = dict(pressure_mode=rq_p[0], pressure_unit=rq_p[1])
+        lkw = dict(loading_basis=rq_l[0], loading_unit=rq_l[1], material_basis=rq_m[0], material_unit=rq_m[1])
+        state_lines(w, miso)
+        ck.count(("model-state", route, mname, str(lab[6]), tuple(lab[:6]), rq_p, rq_l, rq_m), bucket="state:model:" + str(lab[6]))
+        npts = rng.randint(3, 12)
+        if mname == "Virial":
+            nl = [float(x) for x in np.linspace(m.loading_range[0], m.loading_range[1], npts)]
+            npr = [float(m.pressure(np.float64(x))) for x in nl]
+        else:
+            npr = [float(x) for x in np.linspace(m.pressure_range[0], m.pressure_range[1], npts)]
+            nl = [float(m.loading(np.float64(x))) for x in npr]
+        exp_p = [expected_pressure(P, lab, rq_p, v) for v in npr]
+        exp_l = [expected_loading(P, lab, rq_l, rq_m, v) for v in nl]
+        other_b = "des" if own == "ads" else "ads"
+        for what, exp, kw in (("pressure", exp_p, pkw), ("loading", exp_l, lkw)):
+            lim0 = mid_limits(exp)
+            for branch, lim in ((None, None), (own, None), (None, lim0), (own, lim0)):
+                e = [x for x in exp if lim is None or (lim[0] < x < lim[1])]
+                try:
+                    got = [float(x) for x in getattr(miso, what)(points=npts, branch=branch, limits=lim, **kw)]
+                    ok = vals_eq(got, e, 1e-9)
+                except Exception as ex:  # noqa
+                    got, ok = repr(ex), False
+                ck.count(("model." + what + "()", mname, str(lab[6]), tuple(lab[:6]), rq_p, rq_l, rq_m, branch, lim is None), bucket="accessor:model." + what)
+                if not ok:
+                    ck.fail_case({**base_sig, **(fsig if what == "loading" else {}), "accessor": "ModelIsotherm." + what,
+                                  "clause": "model points re-expressed in the requested units, strictly inside the limits"},
+                                 {"points": npts, "branch": branch, "limits": lim, "got": str(got)[:300], "expected": [float(x) for x in e][:5]})
+            try:
+                getattr(miso, what)(points=npts, branch=other_b, **kw)
+                ck.fail_case({**base_sig, "accessor": "ModelIsotherm." + what, "clause": "a branch the model was not fitted on is refused"}, {"branch": other_b})
+            except ParameterError:
+                pass
+            except Exception as ex:  # noqa
+                ck.fail_case({**base_sig, "accessor": "ModelIsotherm." + what, "clause": "a branch the model was not fitted on is refused"}, {"branch": other_b, "raised": repr(ex)[:200]})
+        for b in (own, other_b, None, "all"):
+            hb = miso.has_branch(b)
+            ck.count(("model.has_branch", own, b), bucket="accessor:has_branch")
+            if bool(hb) != (b == own):
+                ck.fail_case({"accessor": "ModelIsotherm.has_branch", "clause": "true exactly for the branch the model was fitted on"}, {"own": own, "asked": b, "got": hb})
+            ask(" ".join(["mhb", own, tok(b)]), ("bool", lambda b=b: miso.has_branch(b)), {"accessor": "model.has_branch", "branch": b})
+        # evaluated / inverted at a point, foreign units (the same oracles as above, now in every temperature state)
+        pn, bare = npr[len(npr) // 2], nl[len(nl) // 2]
+        qf = float(expected_pressure(P, lab, rq_p, pn))
+        try:
+            got = float(miso.loading_at(qf, **pkw, **lkw))
+            exp = expected_loading(P, lab, rq_l, rq_m, bare)
+            ok = close(got, exp, rel=1e-7 if mname == "Virial" else 1e-9)
+        except Exception as ex:  # noqa
+            got, ok, exp = repr(ex), False, None
+        ck.count(("state.model.loading_at", mname, str(lab[6]), tuple(lab[:6]), rq_p, rq_l, rq_m), bucket="accessor:model.loading_at")
+        if not ok and mname != "Virial":
+            ck.fail_case({**base_sig, **fsig, "accessor": "ModelIsotherm.loading_at", "clause": "bare model after unit conversion"}, {"got": str(got), "expected": float(exp) if exp is not None else None})
+        if rq_l[1] is not None and mname in ("Langmuir", "Henry", "Toth", "Virial"):
+            lf = float(expected_loading(P, lab, rq_l, rq_m, bare))
+            tol = inv_tolerance(m, bare, np)
+            try:
+                got = float(miso.pressure_at(lf, **lkw, **pkw))
+                if tol is None:
+                    exp, ok = None, True
+                else:
+                    exp = expected_pressure(P, lab, rq_p, float(m.pressure(np.float64(bare))))
+                    ok = close(got, exp, rel=tol)
+            except Exception as ex:  # noqa
+                got, ok, exp = repr(ex), tol is None, None
+            ck.count(("state.model.pressure_at", mname, str(lab[6]), tuple(lab[:6]), rq_p, rq_l, rq_m), bucket="accessor:model.pressure_at")
+            if not ok:
+                ck.fail_case({**base_sig, **fsig, "accessor": "ModelIsotherm.pressure_at", "clause": "bare model after unit conversion"}, {"got": str(got), "expected": float(exp) if exp is not None else None})
+        # the reading layer on a model isotherm (60 points, reversed for a desorption model)
+        if mname != "Virial":
+            p60 = [float(x) for x in np.linspace(m.pressure_range[0], m.pressure_range[1], 60)]
+            e_p = [expected_pressure(P, lab, rq_p, v) for v in p60]
+            e_l = [expected_loading(P, lab, rq_l, rq_m, float(m.loading(np.float64(v)))) for v in p60]
+            if own == "des":
+                e_p, e_l = e_p[::-1], e_l[::-1]
+            try:
+                gp, gl = get_iso_loading_and_pressure_ordered(miso, own, lkw, pkw)
+                ok = vals_eq([float(x) for x in gp], e_p, 1e-9) and vals_eq([float(x) for x in gl], e_l, 1e-9)
+                got = [[float(x) for x in gp][:3], [float(x) for x in gl][:3]]
+            except Exception as ex:  # noqa
+                got, ok = repr(ex), False
+            ck.count(("ordered-model", own, mname, tuple(lab[:6]), rq_p, rq_l, rq_m), bucket="accessor:ordered_read")
+            if not ok:
+                ck.fail_case({**base_sig, **fsig, "accessor": "get_iso_loading_and_pressure_ordered", "clause": "both columns in the requested units, rows paired, desorption reversed"},
+                             {"got": str(got)[:300], "expected": [[float(x) for x in e_p[:3]], [float(x) for x in e_l[:3]]]})
+        # ---- Lean model of the columns (models that calculate loading)
+        if mname != "Virial":
+            for branch in (None, own, "all", other_b):
+                lim = mid_limits(exp_p) if rng.random() < 0.6 else None
+                ask(" ".join(["mP", qstr(m.pressure_range[0]), qstr(m.pressure_range[1]), str(npts), own, tok(branch), tok(rq_p[0]), tok(rq_p[1])] + lim_tok(lim)),
+                    ("vals", lambda branch=branch, lim=lim: miso.pressure(points=npts, branch=branch, limits=lim, **pkw)),
+                    {**base_sig, "accessor": "model.pressure column", "branch": branch, "limits": lim})
+        if mname == "Henry":
+            K = float(par["K"])
+            for branch in (None, own, "all"):
+                lim = mid_limits(exp_l) if rng.random() < 0.6 else None
+                ask(" ".join(["mL", qstr(K), qstr(m.pressure_range[0]), qstr(m.pressure_range[1]), str(npts), own, tok(branch)] + [tok(x) for x in rq_l + rq_m] + lim_tok(lim)),
+                    ("vals", lambda branch=branch, lim=lim: miso.loading(points=npts, branch=branch, limits=lim, **lkw)),
+                    {**base_sig, "accessor": "model.loading column", "branch": branch, "limits": lim})
+            # input / output conversions of the model class, observed through the straight line n = K p
+            argsets = [(rq_p[0], rq_p[1])]
+            if rng.random() < 0.5:
+                argsets.append((rng.choice([None, "", "bogus", rq_p[0], "absolute"]), rng.choice([None, "", "bogus", rq_p[1], "kPa"])))
+            for pm_, pu_ in argsets:
+                ask(" ".join(["iP", qstr(qf), tok(pm_), tok(pu_)]), ("val", lambda pm_=pm_, pu_=pu_: miso.loading_at(qf, pressure_mode=pm_, pressure_unit=pu_) / K),
+                    {**base_sig, "accessor": "model.loading_at-input", "args": [str(pm_), str(pu_)]})
+                ask(" ".join(["oPM", qstr(pn), tok(pm_), tok(pu_)]), ("val", lambda pm_=pm_, pu_=pu_: miso.pressure_at(K * pn, pressure_mode=pm_, pressure_unit=pu_)),
+                    {**base_sig, "accessor": "model.pressure_at-output", "args": [str(pm_), str(pu_)]})
+            lfq = float(expected_loading(P, lab, rq_l, rq_m, bare))
+            ask(" ".join(["mlat", qstr(K), qstr(qf)] + [tok(x) for x in rq_p + rq_l + rq_m]), ("val", lambda: miso.loading_at(qf, **pkw, **lkw)), {**base_sig, "accessor": "model.loading_at (whole)"})
+            ask(" ".join(["mpat", qstr(K), qstr(lfq)] + [tok(x) for x in rq_l + rq_m + rq_p]), ("val", lambda: miso.pressure_at(lfq, **lkw, **pkw)), {**base_sig, "accessor": "model.pressure_at (whole)"})
+            largs = [rq_l + rq_m]
+            if rng.random() < 0.5:
+                largs.append((rng.choice([None, "", "bogus", rq_l[0]]), rng.choice([None, "", "bogus", rq_l[1], "g"]), rng.choice([None, "", "bogus", rq_m[0]]), rng.choice([None, "", "bogus", rq_m[1], "kg"])))
+            for la4 in largs:
+                ask(" ".join(["iL", "T", qstr(lfq)] + [tok(x) for x in la4]),
+                    ("val", lambda la4=la4: miso.pressure_at(lfq, loading_basis=la4[0], loading_unit=la4[1], material_basis=la4[2], material_unit=la4[3]) * K),
+                    {**base_sig, "accessor": "model.pressure_at-input", "args": [str(x) for x in la4]})
+
+    for ci in range(ck.n(45, 320)):
+        try:
+            iso, w, route, hist = build_point_state()
+        except Exception as e:  # noqa   (a refused conversion inside the history: C02's business)
+            ck.notes.append("state generator: history refused: " + repr(e)[:160])
+            continue
+        if complete(w):
+            probe_point(iso, w, route, hist, ci)
+    for ci in range(ck.n(30, 220)):
+        miso, w, route, mname, par, own = build_model_state()
+        if complete(w):
+            probe_model(miso, w, route, mname, par, own, ci)
+
+    # ------------------------------------------------------------------ find_limit_indices: positions of the points inside the limits
+    for _ in range(ck.n(60, 400)):
+        nx = rng.randint(0, 12)
+        xs = sorted(round(rng.uniform(0.1, 10.0), 1) for _ in range(nx))
+        def pick_lim():
+            r = rng.random()
+            if r < 0.2 or not xs:
+                return rng.choice([None, 0, 0.05, 20.0])
+            if r < 0.45:
+                return rng.choice(xs)                       # on a stored value
+            return round(rng.uniform(0.0, 11.0), 3) + 0.00037   # generic: never on a stored value
+        limits = None if rng.random() < 0.15 else (pick_lim(), pick_lim())
+        sm = rng.choice([3, 3, 0, 1, 5])
+        try:
+            got = tuple(int(v) for v in find_limit_indices(np.array(xs, dtype=float), limits, sm))
+        except CalculationError:
+            got = "refused"
+        except Exception as e:  # noqa
+            got = repr(e)
+        ck.count(("find_limit_indices", tuple(xs), limits, sm), bucket="find_limit_indices")
+        lo, hi = limits if limits is not None else (None, None)
+        ask(" ".join(["fli", tok([frac(x) for x in xs])] + lim_tok(limits) + [str(sm)]), ("ints", lambda xs=xs, limits=limits, sm=sm: find_limit_indices(np.array(xs, dtype=float), limits, sm)),
+            {"accessor": "find_limit_indices", "array": xs, "limits": limits, "smallest": sm})
+        generic = all(v is None or v not in xs for v in (lo, hi))
+        if generic:
+            inside = [k for k, x in enumerate(xs) if (not lo or x >= lo) and (not hi or x < hi)]
+            must_refuse = (len(inside) - 1 < sm) if inside else True
+            if isinstance(got, tuple):
+                okf = (not must_refuse) and list(range(got[0], got[1] + 1)) == inside
+            else:
+                okf = got == "refused" and must_refuse
+            if not okf:
+                ck.fail_case({"accessor": "find_limit_indices", "clause": "the positions delimit exactly the points inside the limits"},
+                             {"array": xs, "limits": limits, "smallest": sm, "got": got, "inside": inside})
 
     # ------------------------------------------------------------------ branch guessing: depends on the pressures only
     seqs = [[1, 2, 3, 2, 1], [5, 4, 3, 2, 1], [1, 2, 3, 4], [1, 3, 3, 2], [2, 2, 2], [1], [3, 1, 2, 5, 4], [1, 2, 5, 5, 1]]
@@ -319,19 +959,39 @@ def run(ck):
                 got = ("err", err_class(e))
             r = rep.split()
             ck.count(("corr", line), nontrivial=False, bucket="correspondence:" + (r[0] if r[0] != "err" else "err:" + r[1]))
-            if kind == "list":
-                agree = r[0] == "ok" and got[0] == "ok" and str(got[1]).replace(" ", "").replace(",", ";") == r[1]
-            elif r[0] == "ok":
-                agree = got[0] == "ok" and close(float(got[1]), Fr(r[1]), rel=1e-9)
-            else:
+            if r[0] == "err":
                 agree = got[0] == "err" and ERRMAP.get(r[1], r[1]) == got[1]
+            elif r[0] == "none":            # interpLin: outside the measured range
+                agree = got[0] == "err" and got[1] == "other:ValueError"
+            elif r[0] != "ok" or got[0] != "ok":
+                agree = False
+            elif kind == "list":
+                agree = str(got[1]).replace(" ", "").replace(",", ";") == r[1]
+            elif kind == "ints":
+                agree = "[" + ";".join(str(int(v)) for v in got[1]) + "]" == r[1]
+            elif kind == "bool":
+                agree = (r[1] == "T") == bool(got[1])
+            elif kind == "vals":
+                mv = [Fr(x) for x in r[1].strip("[]").split(";") if x]
+                gv = [float(x) for x in got[1]]
+                agree = len(mv) == len(gv) and all(close(g, e, rel=1e-9) for g, e in zip(gv, mv))
+            else:
+                agree = close(float(got[1]), Fr(r[1]), rel=1e-9)
             if not agree:
                 n_dis += 1
-                if n_dis <= 3:
+                if n_dis <= (40 if os.environ.get("PGV_C03_DEBUG") else 3):
                     ck.broken.append({"step": "correspondence Model/Access.lean", "what": {"request": line, "model": rep[:120], "implementation": [got[0], str(got[1])[:80]], **(sig or {})}})
     ck.cov["correspondence_disagreements"] = n_dis
     ck.cov["rule"] = ("seeded (stored representation x requested representation) pairs over the 10 x 27 x 19 space, stub and N2 adsorbates, two-branch data with extra columns: "
                       "pressure()/loading() per branch, limits (None, 0, equal-to-data), loading_at/pressure_at at knots / interior / outside / with fill, foreign-unit queries, "
                       "ModelIsotherm.loading_at/pressure_at on 4 closed-form models, malformed argument combinations; branch guessing on pressure sequences x 6 row labellings x 4 dtypes; "
-                      "distinct = distinct (accessor, stored labels, requested representation, branch)")
-    ck.assumptions += ["scipy.interpolate.interp1d for non-linear kinds (only 'coincides at knots' is claimed for them)"]
+                      "distinct = distinct (accessor, stored labels, requested representation, branch); "
+                      "isotherm STATES: 11 real adsorbates (CoolProp) + stub at jittered temperatures, temperature stored in K or in degrees Celsius, reached by construction / "
+                      "convert_temperature (every spelling) / histories of 1-3 permanent conversions with cached interpolators; point isotherms (5-9 adsorption, 0/2/3 desorption rows) and "
+                      "model isotherms (Langmuir, Henry, Toth, DSLangmuir, Virial; ads or des); requests biased to pressure-mode changes (p0(T)) and volume-basis loading changes (densities at T); "
+                      "per state: SI oracle at the kelvin temperature, permanent conversion of a clone read natively (same branch / limits / query), other_data, has_branch, ordered read, "
+                      "ModelIsotherm.pressure/loading columns with strict limits and branch guard, call sequences (fill rule, interpolation kind) on one object; find_limit_indices on sorted arrays; "
+                      "Lean correspondence of every one of these (state accessors with the adsorbate tabulated at the exact kelvin temperature)")
+    ck.assumptions += ["scipy.interpolate.interp1d for non-linear kinds (only 'coincides at knots' is claimed for them)",
+                       "CoolProp values (saturation pressure, densities) enter as the constants returned by the real Adsorbate accessors at the kelvin temperature of the state",
+                       "numpy.linspace / numpy.searchsorted (modelled by `linspace` / `searchLeft`, compared on every run)"]
